@@ -147,7 +147,8 @@ def runQueue0 (_prop : String) (_f : List String) (obsS : String) : Verdict :=
 def runStress (_prop : String) (_f : List String) (obsS : String) : Verdict :=
   if obsS == "ok" then ⟨true, "ok", "ok", none, ["stress"], false⟩
   else
-    let p := if obsS.startsWith "wrapped-sink" then "C09" else if obsS.startsWith "queued" || obsS.startsWith "submitted" then "C15" else "C08"
+    let p := if obsS.startsWith "wrapped-sink" then "C09" else if obsS.startsWith "queued" || obsS.startsWith "submitted" then "C15"
+             else if obsS.startsWith "refused" then "C10" else "C08"
     let also := if obsS.startsWith "queued-panicked" then ["C20"] else []
     ⟨true, obsS, obsS, some ("+".intercalate (p :: also), "free-running producers: " ++ obsS), ["stress"], false⟩
 
@@ -158,6 +159,10 @@ def runBurst (_prop : String) (_f : List String) (obsS : String) : Verdict :=
 def runDropRace (_prop : String) (_f : List String) (obsS : String) : Verdict :=
   if obsS == "ok" then ⟨true, "ok", "ok", none, ["drop-race"], false⟩
   else ⟨true, obsS, obsS, some ("C09+C08", "concurrent drops of the last handles: " ++ obsS), ["drop-race"], false⟩
+
+def runEmitDrop (_prop : String) (_f : List String) (obsS : String) : Verdict :=
+  if obsS == "ok" then ⟨true, "ok", "ok", none, ["emit-then-last-drop"], false⟩
+  else ⟨true, obsS, obsS, some ("C09+C08", "emit immediately followed by the last drop: " ++ obsS), ["emit-then-last-drop"], false⟩
 
 def runLatency (_prop : String) (_f : List String) (obsS : String) : Verdict :=
   if obsS == "ok" then ⟨true, "ok", "ok", none, ["latency"], false⟩
